@@ -187,6 +187,33 @@ def _handmade():
             h8.atmasses = np.arange(1, h8.natom + 1, dtype=float) * 1837.0
             h8.moments = {(1, "c"): np.array([0.1, -0.2, 0.3]), (2, "c"): np.arange(6, dtype=float) * 0.1}
             out.append(("fchk:optional-arrays", h8))
+            # a generalized contraction whose angular momenta are not ascending (the two parts of an SP shell stored
+            # P first): the announced segmentation must keep every basis function where the coefficients expect it
+            h9 = copy.deepcopy(h)
+            sh9 = list(h9.obasis.shells)
+            g9 = Shell(sh9[-1].icenter, np.array([1, 0]), ["c", "c"], np.array([2.5, 0.6]), np.array([[0.6, 0.2], [0.5, 0.9]]))
+            h9.obasis = MolecularBasis([*sh9, g9], h9.obasis.conventions, h9.obasis.primitive_normalization)
+            c9 = np.vstack([mo.coeffs, 0.01 * np.arange(1, 4 * mo.coeffs.shape[1] + 1).reshape(4, -1)])
+            h9.mo = MolecularOrbitals(mo.kind, mo.norba, mo.norbb, mo.occs.copy(), c9, mo.energies.copy(), mo.irreps)
+            h9.one_rdms = {}
+            out.append(("fchk:generalized-contraction-p-first", h9))
+        except Exception as exc:  # pragma: no cover
+            out.append(("handmade-error:" + repr(exc)[:80], None))
+        try:
+            # a segmented basis (every conversion for it would be the only one) with alpha-minus-beta occupations:
+            # formats that convert to unrestricted orbitals must announce exactly that conversion
+            s0 = load_one(str(d / "h2o_sto3g.wfn"))
+            m0 = s0.mo
+            n0 = m0.norba
+            occ0 = np.zeros(n0)
+            occ0[: min(4, n0)] = [2.0, 2.0, 1.0, 1.0][: min(4, n0)]
+            am0 = np.zeros(n0)
+            am0[2: min(4, n0)] = 1.0
+            s1 = copy.deepcopy(s0)
+            s1.mo = MolecularOrbitals("restricted", n0, n0, occ0, m0.coeffs[:, :n0].copy(), m0.energies[:n0].copy(), None,
+                                      occs_aminusb=am0)
+            s1.extra = {k: v for k, v in (s1.extra or {}).items() if k != "mo_spin"}
+            out.append(("wfn:segmented-aminusb", s1))
         except Exception as exc:  # pragma: no cover
             out.append(("handmade-error:" + repr(exc)[:80], None))
         mol = IOData(atnums=np.array([8, 1, 1]), atcoords=np.array([[0, 0, 0.0], [0, 1.5, 1.1], [0, -1.5, 1.1]]),
